@@ -4,6 +4,7 @@ import (
 	"fmt"
 	"math"
 	"testing"
+	"time"
 
 	"github.com/markusressel/fan2go/zverif/check"
 	"github.com/markusressel/fan2go/zverif/kernel"
@@ -594,8 +595,9 @@ func (o *loopOracle) Finish(st *stage.Stage, res *check.Result) {
 		total += lf.cycles
 	}
 	res.ProbeN("cycles", total)
-	if total == 0 && st.BootErr == nil {
-		res.Harness = "loop: no control cycle observed"
+	if total == 0 && st.BootErr == nil && !st.HarnessDriven {
+		// e.g. slow I/O stretched the start-up sweep beyond the horizon: nothing to judge
+		res.Probe("no-control-cycle-within-horizon(unjudged)")
 	}
 	if o.props["C10"] {
 		for id, lf := range o.fans {
@@ -638,6 +640,7 @@ func init() {
 	register(&Family{Name: "c01cmd", Run: runLoop("C01", "C12"), Gen: func(seed uint64, tier string) *world.Scenario {
 		return genLoop("c01cmd", seed, tier, loopOpts{kinds: []string{"cmd"}, maxFans: 1, neverStopP: 0.5, stallP: 0.3, absurdTemps: true, horizonLo: 10, horizonHi: 16})
 	}})
+	register(&Family{Name: "c01driven", Run: runC01Driven, Gen: genC01Driven})
 	register(&Family{Name: "c02", Run: runLoop("C02"), Gen: func(seed uint64, tier string) *world.Scenario {
 		return genLoop("c02", seed, tier, loopOpts{kinds: []string{"hwmon", "hwmon", "file"}, neverStopP: 1, stallP: 0.7, neverSpinP: 0.15, identityOnly: true, horizonLo: 30, horizonHi: 90, rpmWin: []int{1, 2, 5}})
 	}})
@@ -705,4 +708,86 @@ func c10Tune(sc *world.Scenario, r *kernel.Rand, win int) {
 		}
 		f.Driver.InitPwm = *f.MinPwm + int(float64(c)/255*float64(*f.MaxPwm-*f.MinPwm))
 	}
+}
+
+// ---------------------------------------------------------------------------
+// C01 driven cycles (L0): the harness calls the public UpdateFanSpeed itself
+// with seeded gaps, including two calls at the same virtual instant (elapsed
+// time 0 for the PID control loop and for a PID curve) and sub-microsecond gaps.
+
+func genC01Driven(seed uint64, tier string) *world.Scenario {
+	sc, r := baseScenario("c01driven", seed)
+	chip := addChip(sc, "simchip")
+	sc.NoControllers, sc.NoMonitors = true, true
+	sc.LatMin, sc.LatMax = 0, 0 // no virtual latency: consecutive operations share one instant
+	sc.Horizon = sec(3600)
+	sc.Sensors = append(sc.Sensors, world.SensorSpec{ID: "s0", Kind: "file", Prog: constTemp(50000), Chip: chip})
+	if r.Bool(0.5) {
+		sc.Curves = append(sc.Curves, world.CurveSpec{ID: "c0", Kind: "pid", Sensor: "s0", PID: &world.PidSpec{SetPoint: float64(r.Range(20, 80)), P: (r.Float() - 0.7) * kernel.Pick(r, 0.1, 1.0, 100.0), I: (r.Float() - 0.7) * kernel.Pick(r, 0.01, 10.0), D: (r.Float() - 0.5) * kernel.Pick(r, 0.01, 1.0, 1000.0)}})
+	} else {
+		sc.Curves = append(sc.Curves, world.CurveSpec{ID: "c0", Kind: "linear", Sensor: "s0", Min: 20, Max: 80})
+	}
+	f := world.FanSpec{ID: "f0", Kind: "file", Curve: "c0"}
+	f.Plant = world.PlantSpec{NoRpm: true}
+	f.Driver = world.DriverSpec{NoEnable: true, InitPwm: r.Range(0, 255)}
+	switch r.Intn(4) {
+	case 0:
+		f.Algo = world.AlgoSpec{Kind: "direct", MaxChange: world.IntP(r.Range(1, 255))}
+	case 1:
+		f.Algo = world.AlgoSpec{Kind: ""}
+	default:
+		f.Algo = world.AlgoSpec{Kind: "pid", P: (r.Float()*4 - 2) * kernel.Pick(r, 1.0, 1e6, 1e-6), I: (r.Float()*2 - 1) * kernel.Pick(r, 1.0, 1e9), D: (r.Float() - 0.5) * kernel.Pick(r, 1.0, 1e-9, 1e9)}
+	}
+	switch r.Intn(3) {
+	case 0:
+		m := identityMap()
+		f.PwmMap = &m
+	case 1:
+		m := map[int]int{0: 0, 40: 60, 128: 128, 200: 230, 255: 255}
+		f.PwmMap = &m
+	default:
+		f.Driver.Quant, f.Driver.K = "mult", kernel.Pick(r, 5, 32)
+		f.Driver.InitPwm = world.Quantise(&f.Driver, f.Driver.InitPwm)
+	}
+	sc.Fans = append(sc.Fans, f)
+	sc.Params["cycles"] = float64(r.Range(40, 200))
+	return sc
+}
+
+func runC01Driven(t *testing.T, sc *world.Scenario) *check.Result {
+	return runL1(t, sc, func(st *stage.Stage, res *check.Result) []Oracle {
+		st.HarnessDriven = true
+		o := newLoopOracle(st, res, "C01")
+		st.OnBooted = func(st *stage.Stage) {
+			st.K.Go("driver", func() {
+				r := kernel.NewRand(sc.Seed, "c01driven.task")
+				ctl := st.Ctls["f0"]
+				if err := ctl.RunInitializationSequence(); err != nil {
+					res.Notes["init"] = err.Error()
+				}
+				n := int(sc.Params["cycles"])
+				for i := 0; i < n; i++ {
+					gap := kernel.Pick(r, 0, 0, 0, 1, 17, 1000, 1000000, 200000000, 2000000000)
+					if gap > 0 {
+						time.Sleep(time.Duration(gap))
+					} else {
+						res.Probe("driven-cycle-with-zero-elapsed-time")
+					}
+					// absurd and ordinary sensor states (the linear curve reads the average, the PID curve the file)
+					v := kernel.Pick(r, absurdTemps...)
+					if r.Bool(0.5) {
+						v = r.Range(0, 100000)
+					}
+					st.Sensors["s0"].SetMovingAvg(float64(v))
+					st.W.Sensors["s0"].Spec.Prog = constTemp(v)
+					if err := ctl.UpdateFanSpeed(); err != nil {
+						res.Probe("update-returned-error")
+					}
+					res.Probe("driven-cycles")
+				}
+				st.K.Stop()
+			})
+		}
+		return []Oracle{o}
+	})
 }
